@@ -1394,6 +1394,12 @@ impl Peers {
         Ok(())
     }
 
+    pub(crate) fn clear_latest_block_filter_hashes(&self, index: PeerIndex) {
+        if let Some(mut peer) = self.inner.get_mut(&index) {
+            peer.latest_block_filter_hashes.clear();
+        }
+    }
+
     pub(crate) fn add_block(
         &self,
         matched_blocks: &mut HashMap<H256, (bool, Option<packed::Block>)>,
